@@ -423,16 +423,23 @@ type lockReq struct {
 	What  string
 }
 
+type reqOrigin struct {
+	Param int
+	Write bool
+	Block *ssa.BasicBlock
+}
+
 type lockAnalysis struct {
 	c            *C
 	flows        map[*ssa.Function]*LockFlow
 	reqs         map[*ssa.Function][]lockReq // requirements on callers: lock on parameter i
+	origins      map[*ssa.Function][]reqOrigin // the sites the requirements come from
 	fns          []*ssa.Function
 	closureEntry map[*ssa.Function]Set
 }
 
 func (c *C) lockAn() *lockAnalysis {
-	la := &lockAnalysis{c: c, flows: map[*ssa.Function]*LockFlow{}, reqs: map[*ssa.Function][]lockReq{}, closureEntry: map[*ssa.Function]Set{}}
+	la := &lockAnalysis{c: c, flows: map[*ssa.Function]*LockFlow{}, reqs: map[*ssa.Function][]lockReq{}, origins: map[*ssa.Function][]reqOrigin{}, closureEntry: map[*ssa.Function]Set{}}
 	la.fns = c.P.allFuncs("memdb")
 	if c.la != nil {
 		return c.la
@@ -627,8 +634,36 @@ func (la *lockAnalysis) sites(fn *ssa.Function) []lockSite {
 				out = append(out, lockSite{Fn: fn, In: in, Construct: name(cf.Name() + "(" + canon(k) + ")"), Key: canon(k), Write: true, Kind: "ttl"})
 				continue
 			}
-			// requirements inferred for first-party helpers
-			for _, rq := range la.reqs[cf] {
+			// requirements inferred for first-party helpers; a helper steered by a flag or a small enum and called with a
+			// literal needs what the sites reachable with that literal need (lookup(key, create=false) reads)
+			reqs := la.reqs[cf]
+			if ca := constArgs(ci); len(ca) > 0 && len(reqs) > 0 {
+				reach := prunedReach(cf, ca)
+				need := map[int]int{} // 1 read, 2 write
+				for _, o := range la.origins[cf] {
+					if !reach[o.Block] {
+						continue
+					}
+					lvl := 1
+					if o.Write {
+						lvl = 2
+					}
+					if need[o.Param] < lvl {
+						need[o.Param] = lvl
+					}
+				}
+				var eff []lockReq
+				for pi, lvl := range need {
+					what := "R"
+					if lvl == 2 {
+						what = "W"
+					}
+					eff = append(eff, lockReq{Param: pi, Write: lvl == 2, What: what + " stripe lock on its key argument"})
+				}
+				sort.Slice(eff, func(i, j int) bool { return eff[i].Param < eff[j].Param })
+				reqs = eff
+			}
+			for _, rq := range reqs {
 				if rq.Param < len(ci.Common().Args) {
 					k := ci.Common().Args[rq.Param]
 					out = append(out, lockSite{Fn: fn, In: in, Construct: name("call " + cf.Name() + "(" + canon(k) + ") needs " + rq.What), Key: canon(k), Write: rq.Write, Kind: "call"})
@@ -843,6 +878,7 @@ func (la *lockAnalysis) run(rule string) {
 				continue
 			}
 			var reqs []lockReq
+			var orig []reqOrigin
 			seen := map[string]bool{}
 			for _, s := range la.sites(fn) {
 				ok, _ := la.check(s)
@@ -860,6 +896,7 @@ func (la *lockAnalysis) run(rule string) {
 					if s.Write {
 						what = "W"
 					}
+					orig = append(orig, reqOrigin{Param: pi, Write: s.Write, Block: s.In.Block()})
 					k := fmt.Sprint(pi, what)
 					if !seen[k] {
 						seen[k] = true
@@ -867,6 +904,7 @@ func (la *lockAnalysis) run(rule string) {
 					}
 				}
 			}
+			la.origins[fn] = orig
 			if len(reqs) != len(la.reqs[fn]) {
 				la.reqs[fn] = reqs
 				changed = true
